@@ -17,7 +17,11 @@ type obsInfo struct {
 	handlers map[string]*ssa.Function
 	deliver  *ssa.Function // sendOrSkip: the method that calls the listener field
 	listener *types.Var    // func(models.ListenerArgs) field
-	gate     *ssa.Function // canForward
+	gate     *ssa.Function // canForward (when the gate is split by its control flag: the data variant)
+	// gates: every variant of the gate — one function taking (seqNo, isControl), or two taking (seqNo), one per kind of
+	// event; gateCtl gives the fixed control flag of a variant of the split form
+	gates   []*ssa.Function
+	gateCtl map[*ssa.Function]bool
 	member   *ssa.Function // IsInSnapshotMarker
 	skipWin  *ssa.Function // isBeforeSkipWindow
 	need     *ssa.Function // needCatchup: the (uint64) bool helper the gate consults directly
@@ -133,17 +137,54 @@ func observerInfo(c *Ctx, id string) *obsInfo {
 	c.need(oi.deliver != nil, id, "observer method calling the listener field")
 	pkg := strings.TrimPrefix(strings.TrimPrefix(oi.typ.Obj().Pkg().Path(), modPath), "/")
 	// helpers are identified by role (signature and who calls them), not by name
+	oi.gateCtl = map[*ssa.Function]bool{}
 	if g := w.methodsBySig(oi.typ, []string{"uint64", "bool"}, []string{"bool"}); len(g) == 1 {
 		oi.gate = g[0]
+		oi.gates = []*ssa.Function{g[0]}
 	}
 	oi.member = w.Method(pkg, oi.typ.Obj().Name(), "IsInSnapshotMarker")
+	if oi.gate == nil {
+		// the gate split by its control flag into two named helpers: the (uint64) bool methods the event handlers call
+		// directly (other than the snapshot-membership test); the variant the marker handler calls is the control one
+		cnt := map[*ssa.Function]int{}
+		byMarker := map[*ssa.Function]bool{}
+		for name, h := range oi.handlers {
+			allInstrs(h, func(in ssa.Instruction) {
+				if cc := callOf(in); cc != nil {
+					for _, m := range w.methodsBySig(oi.typ, []string{"uint64"}, []string{"bool"}) {
+						if cc.StaticCallee() == m && m != oi.member {
+							cnt[m]++
+							if name == "SnapshotMarker" {
+								byMarker[m] = true
+							}
+						}
+					}
+				}
+			})
+		}
+		if len(cnt) == 2 {
+			for m := range cnt {
+				oi.gates = append(oi.gates, m)
+				oi.gateCtl[m] = byMarker[m]
+			}
+			sort.Slice(oi.gates, func(i, j int) bool { return fname(oi.gates[i]) < fname(oi.gates[j]) })
+			for _, m := range oi.gates {
+				if !oi.gateCtl[m] {
+					oi.gate = m
+				}
+			}
+			if oi.gate == nil || oi.gateCtl[oi.gates[0]] == oi.gateCtl[oi.gates[1]] {
+				oi.gate, oi.gates = nil, nil
+			}
+		}
+	}
 	if g := w.methodsBySig(oi.typ, []string{"time.Time"}, []string{"bool"}); len(g) == 1 {
 		oi.skipWin = g[0]
 	}
 	c.need(oi.gate != nil, id, "the observer's gate: its one method of signature (uint64, bool) bool (canForward)")
 	c.need(oi.member != nil, id, "observer.IsInSnapshotMarker")
 	c.need(oi.skipWin != nil, id, "the observer's one method of signature (time.Time) bool (isBeforeSkipWindow)")
-	gateUnit := w.syncCallees(oi.gate, 1, false)
+	gateUnit := oi.gateUnit(w)
 	for _, m := range w.methodsBySig(oi.typ, []string{"uint64"}, []string{"bool"}) {
 		if m == oi.member {
 			continue
@@ -155,7 +196,7 @@ func observerInfo(c *Ctx, id string) *obsInfo {
 				if cc := callOf(in); cc != nil && cc.StaticCallee() == m {
 					if cyc[in.Block()] {
 						polled = true
-					} else if f == oi.gate {
+					} else if oi.isGate(f) {
 						direct = true
 					}
 				}
@@ -172,7 +213,7 @@ func observerInfo(c *Ctx, id string) *obsInfo {
 		for f := range gateUnit {
 			cyc := cycleBlocks(f)
 			allInstrs(f, func(in ssa.Instruction) {
-				if cc := callOf(in); cc != nil && calleeName(cc) == "time.Sleep" && cyc[in.Block()] && f != oi.gate {
+				if cc := callOf(in); cc != nil && calleeName(cc) == "time.Sleep" && cyc[in.Block()] && !oi.isGate(f) {
 					oi.waitFn = f
 				}
 			})
@@ -300,12 +341,61 @@ func asyncConstructs(w *World, fn *ssa.Function) []string {
 
 // eventSeqArg returns the origin of the first argument handed to the gate in a handler.
 func gateCall(oi *obsInfo, h *ssa.Function) *ssa.Call {
-	for _, ci := range callsIn(h, oi.gate) {
-		if c, ok := ci.(*ssa.Call); ok {
-			return c
+	for _, g := range oi.gates {
+		for _, ci := range callsIn(h, g) {
+			if c, ok := ci.(*ssa.Call); ok {
+				return c
+			}
 		}
 	}
 	return nil
+}
+
+// gateCtlOrigin: the control flag a gate call passes — its third argument, or the constant the called variant stands for.
+func (oi *obsInfo) gateCtlOrigin(w *World, g *ssa.Call) string {
+	callee := g.Common().StaticCallee()
+	if len(g.Common().Args) >= 3 {
+		return w.Origin(g.Common().Args[2])
+	}
+	if oi.gateCtl[callee] {
+		return "const(true)"
+	}
+	return "const(false)"
+}
+
+func (oi *obsInfo) isGate(f *ssa.Function) bool {
+	for _, g := range oi.gates {
+		if g == f {
+			return true
+		}
+	}
+	return false
+}
+
+func (oi *obsInfo) isGateName(name string) bool {
+	for _, g := range oi.gates {
+		if fname(g) == name {
+			return true
+		}
+	}
+	return false
+}
+
+func (oi *obsInfo) gateUnit(w *World) map[*ssa.Function]bool {
+	out := map[*ssa.Function]bool{}
+	for _, g := range oi.gates {
+		for f := range w.syncCallees(g, 1, false) {
+			out[f] = true
+		}
+	}
+	return out
+}
+
+func (oi *obsInfo) gateNoInline(m map[string]bool) map[string]bool {
+	for _, g := range oi.gates {
+		m[fname(g)] = true
+	}
+	return m
 }
 
 // sendOrSkipHarness: abstract environment for the deliver function.
@@ -531,10 +621,10 @@ func markerInstall(c *Ctx, id string) {
 		hs := &Harness{
 			Fn:       h,
 			Bools:    []string{"fwd"},
-			NoInline: map[string]bool{fname(oi.gate): true, fname(oi.deliver): true},
+			NoInline: oi.gateNoInline(map[string]bool{fname(oi.deliver): true}),
 			Quiet:    quietLog,
 			Oracle: func(st *State, fn string, args []AV, res *types.Tuple) ([]AV, bool) {
-				if fn == fname(oi.gate) {
+				if oi.isGateName(fn) {
 					return []AV{avBool{st.B("fwd")}}, true
 				}
 				return nil, false
